@@ -137,15 +137,17 @@ def run_replies(stream, cuts, ncalls, inbuf=False):
 
 
 PIECES = ['a', 'b', ' ', '\r', '\n', '\r\n', '2.0.0 ', '5.1.1 ', '4.7.12 ', u'\xe9', u'€', '-', '250 ', '250-', '\t',
-          '.', 'Ok', u'\U0001f600', '5.1.1', '2.0', '\r\n\r\n', 'x y']
+          '.', 'Ok', u'\U0001f600', '5.1.1', '2.0', '\r\n\r\n', 'x y',
+          # characters that str.splitlines() takes for line boundaries and SMTP does not
+          u'\u2028', u'\u2029', u'\x85', '\x0b', '\x0c', '\x1c', '\x1e']
 WS = ' \t\r\n\x0b\x0c'
 
 
 def gen_reply(rnd):
     code = str(rnd.randint(200, 599))
     msg = ''.join(rnd.choice(PIECES) for _ in range(rnd.randint(0, 6)))
-    if msg[:1] and msg[0] in WS:
-        msg = 'x' + msg
+    if msg[:1] and (msg[0] in WS or msg[0].isspace()):     # the statement's domain: the first line does not begin with white space
+        msg = 'x' + msg                                     # (U+0085, U+2028, FS ... are white space to the library's parser)
     how = rnd.random()
     if how < 0.7:
         r = Reply(code, msg)
@@ -233,6 +235,24 @@ def main():
         for cuts in segm(len(stream), rnd, 9 if quick else 11, 6 if quick else 12):
             inbuf = len(cuts) == 1 and rnd.random() < 0.3
             emit(cls, sent, run_replies(stream, cuts, k, inbuf))
+    # ---- long lines: the library never wraps what it writes, so a reply line may well exceed the 512 octets of RFC 5321
+    for it in range(4 if quick else 60):
+        unit = rnd.choice(['a', 'word ', u'\u20ac', u'\xe9x'])
+        total = rnd.choice([505, 509, 513, 600, 1100])
+        long_line = (unit * (total // len(unit.encode('utf-8')) + 1))
+        msg = rnd.choice([long_line, 'short\r\n' + long_line, long_line + '\r\nshort', '2.1.5 ' + long_line])
+        reps = [Reply(str(rnd.randint(200, 599)), msg)] + ([gen_reply(rnd)] if rnd.random() < 0.5 else [])
+        sent, stream = [], b''
+        for r in reps:
+            s = Sock()
+            r.send(IO(s), flush=True)
+            sent.append(describe(r, s.out))
+            stream += s.out
+        stats['roundtrip_streams'] += 1
+        L = len(stream)
+        segsets = [(), tuple(range(1, L)) if L < 700 else tuple(range(7, L, 7)), tuple(range(536, L, 536)), tuple(range(100, L, 100)), (L - 1,), (L - 2,), (520,), (rnd.randint(1, L - 1),)]
+        for cuts in segsets:
+            emit('roundtrip-long', sent, run_replies(stream, tuple(c for c in cuts if 0 < c < L), len(reps)))
     # ---- malformed / arbitrary line shapes, exhaustive over a small alphabet
     alpha = [b'2', b'5', b'-', b' ', b'x', b'\r', b'\n', b'\xff']
     maxlen = 5 if quick else 6
